@@ -441,6 +441,9 @@ loop:
 			// sending a result, don't wait for one.
 			results[rpcToRes[rpc]].Error = rpc.Context().Err()
 			ok = false
+			// not retried: remember it, so that later successful rounds of
+			// the other calls do not make SendBatch report success
+			unretryableError = true
 
 		case <-ctx.Done():
 			canceledIndex = i
